@@ -59,6 +59,7 @@ class Generated:
         self.collisions = 0                           # how many identifier occurrences collide in spelling with another binding
         self.calls_expanded = 0
         self.continuations = 0                        # statements broken over two physical lines
+        self.expansion_starts: List[Tuple[str, str, bool]] = []   # (expansion path, label of the inlined program at its start, is a rep iteration)
 
 
 class Gen:
@@ -547,6 +548,11 @@ class Gen:
                         self.uid += 1
                         new_env[('local', name)] = f'L{self.uid}_{name}'
                     self.out.calls_expanded += 1
+                    # (a label of the inlined program's own marks where this expansion starts: the macro program's table must
+                    # name that address somehow - a source label, or the expansion's synthetic start label)
+                    self.uid += 1
+                    out.append(f'S{self.uid}_start:')
+                    self.out.expansion_starts.append((new_prefix, f'S{self.uid}_start', it is not None))
                     self.inline_stmts(callee.body, callee, new_env, new_prefix, out)
 
     def inline(self) -> None:
